@@ -104,14 +104,14 @@ pub fn generate(r: &mut Runner) {
     for i in 0..cases {
         let name = INDS[i % INDS.len()];
         let (np, nm) = crate::ind::arity(name).unwrap();
-        let n = if i % 3 == 0 { r.rng.range(1, 5) } else { gen::period(&mut r.rng, 128) };
+        let n = if r.rng.chance(0.33) { r.rng.range(1, 5) } else { gen::period(&mut r.rng, 128) };
         let ps: Vec<usize> = (0..np).map(|_| n).collect();
         let ms: Vec<f64> = (0..nm).map(|_| 2.0).collect();
         let mem = memory(name, n);
         let scale = *r.rng.pick(&[1.0, 100.0, 1e4]);
         let plen = r.rng.range(0, if r.tier == Tier::Quick { 300 } else { 2000 });
         let slen = mem + r.rng.below(2 * n + 5);
-        let spike = i % 2 == 0;
+        let spike = r.rng.chance(0.5);
         let regime = *r.rng.pick(gen::REGIMES);
         let mut pre = gen::stream(&mut r.rng, regime, plen, true, scale);
         if spike {
